@@ -225,13 +225,261 @@ theorem sync_managers_roundtrip (m : Mode) (p : Prov) (hcs : 4 ≤ p.cs) (hdr : 
     simp only [le16_length] at h2
     rw [show 128 + (encCats pre).length + 4 = 128 + (encCats pre).length + 2 + 2 by omega]
     exact h2
-  have := collectLoop_items m p (by omega) 8 Gen.Eeprom.CAP_SYNC_MANAGERS 0 parseSm encSm smOf (by omega)
+  have := collectLoop_items m p (by omega) 8 Gen.Eeprom.CAP_SYNC_MANAGERS 0 parseSm encSm smOf 0 (by omega)
     sms ⟨128 + (encCats pre).length + 4, 128 + (encCats pre).length + 4 + 8 * sms.length⟩ []
     (Gen.Eeprom.CAP_SYNC_MANAGERS + 2)
-    (fun s hs => ⟨by simp [encSm, le16], parseSm_enc s (hsms s hs)⟩) hbody (by simp only [hlen])
+    (fun s hs => ⟨by simp [encSm, le16], parseSm_enc s (hsms s hs)⟩) hbody (by simp only [hlen, Nat.add_zero])
     (by simp only; omega) (by simpa [Gen.Eeprom.CAP_SYNC_MANAGERS] using hn)
     (by simp only [Gen.Eeprom.CAP_SYNC_MANAGERS]; omega)
   simpa using this
+
+/-- Holds-at-128 form of an image split around one category. -/
+theorem holds_split {p : Prov} {hdr : List Nat} {pre post : List Cat} {c : Cat}
+    (himg : HoldsImage p (encodeSii hdr (pre ++ c :: post))) (hhdr : hdr.length = 128) :
+    Holds p.rd 128 (encCats pre ++ (encCat c ++ (encCats post ++ [0xff, 0xff]))) := by
+  have hh := holds_cats himg hhdr
+  rw [encCats_append] at hh
+  simpa only [encCats, List.append_assoc] using hh
+
+/-- **FMMU-to-sync-manager mapping** (FMMU_EX, type 42): 3-byte entries `(x, sync manager, y)`, up to 16 of
+    them, followed by at most one pad byte to make the category even: parses to the sync manager indices. -/
+theorem fmmu_mappings_roundtrip (m : Mode) (p : Prov) (hcs : 4 ≤ p.cs) (hdr : List Nat) (pre post : List Cat)
+    (ex : List (Nat × Nat × Nat)) (pad : List Nat)
+    (himg : HoldsImage p
+      (encodeSii hdr (pre ++ ⟨42, (ex.flatMap fun e => [e.1, e.2.1, e.2.2]) ++ pad⟩ :: post)))
+    (hhdr : hdr.length = 128)
+    (hpre : ∀ x ∈ pre, x.WF ∧ catOf x.type ≠ 42 ∧ catOf x.type ≠ Gen.Eeprom.CAT_END)
+    (hn : ex.length ≤ 16) (hpad : pad.length < 3) (heven : (3 * ex.length + pad.length) % 2 = 0)
+    (hne : empties pre + (if (3 * ex.length + pad.length) / 2 = 0 then 1 else 0) < 32)
+    (hsize : 128 + (encCats pre).length + 4 + 3 * ex.length + pad.length < 65536) :
+    (fmmuMappings m p).1 = .ok (ex.map fun e => e.2.1) := by
+  have hlen : (ex.flatMap fun e => [e.1, e.2.1, e.2.2]).length = 3 * ex.length :=
+    flatMap_length_const _ 3 ex (fun _ _ => rfl)
+  have hc42 : catOf 42 = 42 := by decide
+  have hbl : ((ex.flatMap fun e => [e.1, e.2.1, e.2.2]) ++ pad).length = 3 * ex.length + pad.length := by
+    rw [List.length_append, hlen]
+  obtain ⟨hcat, hbody⟩ := category_found_body m p hcs pre
+    ⟨42, (ex.flatMap fun e => [e.1, e.2.1, e.2.2]) ++ pad⟩ _ (holds_split himg hhdr)
+    (by simp only [hc42]; exact hpre) ⟨by simp, by simp only [hbl]; exact heven, by simp only [hbl]; omega⟩
+    (by simp only [hbl]; exact hne) (by simp only [hbl]; omega)
+  simp only [hc42, hbl] at hcat
+  unfold fmmuMappings items
+  simp only [Gen.Eeprom.CAT_FMMU_EX]
+  rw [bind_fst_ok _ (bind_fst_ok _ hcat |>.trans rfl)]
+  have := collectLoop_items m p (by omega) 3 Gen.Eeprom.CAP_FMMU_EX 1 parseFmmuEx
+    (fun e : Nat × Nat × Nat => [e.1, e.2.1, e.2.2]) (fun e => e.2.1) pad.length hpad
+    ex ⟨128 + (encCats pre).length + 4, 128 + (encCats pre).length + 4 + (3 * ex.length + pad.length)⟩ []
+    (Gen.Eeprom.CAP_FMMU_EX + 2)
+    (fun e _ => ⟨rfl, rfl⟩) hbody.append.1 (by simp only [hlen]; omega)
+    (by simp only; omega) (by simpa [Gen.Eeprom.CAP_FMMU_EX] using hn)
+    (by simp only [Gen.Eeprom.CAP_FMMU_EX]; omega)
+  simpa using this
+
+/-- Canonical FMMU usage: 0xFF is an alternative spelling of "unused". -/
+def fmmuOf (u : Nat) : Nat := if u = 255 then 0 else u
+
+theorem parseFmmus_valid : ∀ (us : List Nat), (∀ u ∈ us, u ≤ 3 ∨ u = 255) →
+    parseFmmus us = ret (us.map fmmuOf) := by
+  intro us
+  induction us with
+  | nil => intro _; rfl
+  | cons u us ih =>
+    intro h
+    have hu : enumOf Gen.Eeprom.fmmuUsageTable Gen.Eeprom.fmmuUsageDefault u = some (fmmuOf u) := by
+      rcases h u (by simp) with h3 | h255
+      · have : ∀ v, v ≤ 3 → enumOf Gen.Eeprom.fmmuUsageTable Gen.Eeprom.fmmuUsageDefault v = some (fmmuOf v) := by
+          decide
+        exact this u h3
+      · subst h255; decide
+    unfold parseFmmus
+    rw [hu, ih (fun v hv => h v (by simp [hv]))]
+    simp
+
+/-- **FMMU usage** (type 40): up to 16 usage bytes (an odd count is padded with a byte that itself reads as
+    "unused") parse to their canonical values. -/
+theorem fmmus_roundtrip (m : Mode) (p : Prov) (hcs : 4 ≤ p.cs) (hdr : List Nat) (pre post : List Cat)
+    (us : List Nat) (himg : HoldsImage p (encodeSii hdr (pre ++ ⟨40, us⟩ :: post))) (hhdr : hdr.length = 128)
+    (hpre : ∀ x ∈ pre, x.WF ∧ catOf x.type ≠ 40 ∧ catOf x.type ≠ Gen.Eeprom.CAT_END)
+    (hus : ∀ u ∈ us, u ≤ 3 ∨ u = 255) (hn : us.length ≤ 16) (heven : us.length % 2 = 0)
+    (hne : empties pre + (if us.length / 2 = 0 then 1 else 0) < 32)
+    (hsize : 128 + (encCats pre).length + 4 + us.length < 65536) :
+    (fmmus m p).1 = .ok (us.map fmmuOf) := by
+  have hc40 : catOf 40 = 40 := by decide
+  obtain ⟨hcat, hbody⟩ := category_found_body m p hcs pre ⟨40, us⟩ _ (holds_split himg hhdr)
+    (by simp only [hc40]; exact hpre) ⟨by simp, heven, by simp only; omega⟩ hne hsize
+  simp only [hc40] at hcat
+  unfold fmmus
+  simp only [Gen.Eeprom.CAT_FMMU, Gen.Eeprom.FMMU_READ_BUF]
+  rw [bind_fst_ok _ hcat]
+  simp only
+  have hr := read_ok m p (by omega) ⟨128 + (encCats pre).length + 4, 128 + (encCats pre).length + 4 + us.length⟩
+    16 (by simp only; omega)
+  rw [bind_fst_ok _ hr.1]
+  simp only
+  have hmin : min 16 (128 + (encCats pre).length + 4 + us.length - (128 + (encCats pre).length + 4)) = us.length := by
+    omega
+  rw [hmin]
+  unfold Holds at hbody
+  rw [hbody, parseFmmus_valid us hus]
+  rfl
+
+/-- **Identity** (words 8..15): vendor, product, revision, serial as stored. -/
+theorem identity_roundtrip (m : Mode) (p : Prov) (hcs : 2 ≤ p.cs) (v pc rev ser : Nat)
+    (hv : v < 4294967296) (hp : pc < 4294967296) (hr : rev < 4294967296) (hs : ser < 4294967296)
+    (hh : Holds p.rd 16 (le32 v ++ le32 pc ++ le32 rev ++ le32 ser)) :
+    (identity m p).1 = .ok (v, pc, rev, ser) := by
+  unfold identity
+  simp only [Gen.Eeprom.IDENTITY_WORD_ADDR]
+  rw [show startAt m 8 16 = ret ⟨16, 32⟩ from by
+    unfold startAt; rw [range_window_partial m 8 8 (by decide)]]
+  simp only [bind_ret]
+  have hre := readExact_ok m p hcs ⟨16, 32⟩ 16 (by decide) (by decide)
+  rw [bind_fst_ok _ (eofToOverrun_ok hre.1).1]
+  unfold Holds at hh
+  simp only [List.length_append, le32_length] at hh
+  simp only [ret_fst]
+  rw [hh]
+  simp only [parseIdentity, le32, rd32, List.cons_append, List.nil_append, List.drop_succ_cons, List.drop_zero,
+    List.getD_cons_zero, List.getD_cons_succ]
+  congr 2
+  · omega
+  · congr 1
+    · omega
+    · congr 1 <;> omega
+
+/-- **EEPROM size**, PARTIAL (size word below 511, i.e. EEPROMs up to 511 Kbit... 64 KiB − 128 B): the size in
+    bytes is `(word + 1) * 128`. For larger devices see `size_counterexample`. -/
+theorem size_roundtrip_partial (m : Mode) (p : Prov) (hcs : 2 ≤ p.cs) (w : Nat) (hw : w < 511)
+    (hh : Holds p.rd 124 (le16 w)) :
+    (size m p).1 = .ok ((w + 1) * 128) := by
+  unfold size
+  simp only [Gen.Eeprom.SIZE_WORD_ADDR]
+  rw [show startAt m 62 2 = ret ⟨124, 126⟩ from by
+    unfold startAt; rw [range_window_partial m 62 1 (by decide)]]
+  simp only [bind_ret]
+  have hre := readExact_ok m p hcs ⟨124, 126⟩ 2 (by decide) (by decide)
+  rw [bind_fst_ok _ (eofToOverrun_ok hre.1).1]
+  unfold Holds at hh
+  simp only [le16_length] at hh
+  simp only
+  rw [hh, rd16_le16 w (by omega), add16_ok _ _ _ _ (by omega)]
+  simp only [bind_ret]
+  rw [mul16_ok _ _ _ _ (by omega)]
+  rfl
+
+/-- FALSE from 512 Kbit up (the property's sizes go to 4 Mbit): size word 4095 (4 Mbit = 524288 bytes) is
+    reported as 0 bytes by wrapping builds and panics in checked builds. -/
+theorem size_counterexample :
+    let p : Prov := ⟨imgRd (List.replicate 124 0 ++ le16 4095) 255, 8⟩
+    (size .wrapping p).1 = .ok 0 ∧ (size .checked p).1 = .panic "size:mul" := by
+  decide
+
+/-- **Mailbox settings** (words 0x18..0x1C): offsets, sizes and the supported-protocol bits as stored. -/
+theorem mailbox_roundtrip (m : Mode) (p : Prov) (hcs : 2 ≤ p.cs) (ro rs so ss pr hi : Nat)
+    (h1 : ro < 65536) (h2 : rs < 65536) (h3 : so < 65536) (h4 : ss < 65536) (h5 : pr ≤ 63)
+    (hh : Holds p.rd 48 (le16 ro ++ le16 rs ++ le16 so ++ le16 ss ++ [pr, hi])) :
+    (mailboxConfig m p).1 = .ok ⟨ro, rs, so, ss, pr⟩ := by
+  unfold mailboxConfig
+  simp only [Gen.Eeprom.MAILBOX_WORD_ADDR]
+  rw [show startAt m 24 10 = ret ⟨48, 58⟩ from by
+    unfold startAt; rw [range_window_partial m 24 5 (by decide)]]
+  simp only [bind_ret]
+  have hre := readExact_ok m p hcs ⟨48, 58⟩ 10 (by decide) (by decide)
+  rw [bind_fst_ok _ (eofToOverrun_ok hre.1).1]
+  unfold Holds at hh
+  simp only [List.length_append, le16_length, List.length_cons, List.length_nil] at hh
+  simp only
+  rw [hh]
+  have hb : fromBits Gen.Eeprom.MAILBOX_PROTOCOLS_MASK pr = some pr := by
+    have : ∀ e, e ≤ 63 → fromBits Gen.Eeprom.MAILBOX_PROTOCOLS_MASK e = some e := by decide
+    exact this _ h5
+  unfold parseMailbox
+  have g8 : (le16 ro ++ le16 rs ++ le16 so ++ le16 ss ++ [pr, hi]).getD 8 0 = pr := by simp [le16]
+  rw [g8, hb]
+  simp only [ret_fst]
+  congr 2
+  · simp [le16, rd16]; omega
+  · simp [le16, rd16]; omega
+  · simp [le16, rd16]; omega
+  · simp [le16, rd16]; omega
+
+/-- **Strings** (`find_string`, which `name()` / `description()` use): for a Strings category (type 10) holding
+    `count, (len, bytes)*` and padding, index `i` (1-based, within the table) whose string fits `N` returns
+    that string with NUL bytes removed and non-ASCII bytes replaced by `?`. -/
+theorem find_string_roundtrip (m : Mode) (p : Prov) (hcs : 4 ≤ p.cs) (hdr : List Nat) (pre post : List Cat)
+    (before : List (List Nat)) (t : List Nat) (after : List (List Nat)) (pad : List Nat) (N : Nat)
+    (himg : HoldsImage p (encodeSii hdr (pre ++
+      ⟨10, (before ++ t :: after).length :: ((before ++ t :: after).flatMap encStr) ++ pad⟩ :: post)))
+    (hhdr : hdr.length = 128)
+    (hpre : ∀ x ∈ pre, x.WF ∧ catOf x.type ≠ 10 ∧ catOf x.type ≠ Gen.Eeprom.CAT_END)
+    (hwf : (⟨10, (before ++ t :: after).length :: ((before ++ t :: after).flatMap encStr) ++ pad⟩ : Cat).WF)
+    (hne : empties pre < 32) (hN : t.length ≤ N)
+    (hsize : 128 + (encCats pre).length + 4 +
+      ((before ++ t :: after).length :: ((before ++ t :: after).flatMap encStr) ++ pad).length < 65536) :
+    (findString m p N (before.length + 1)).1 = .ok (some (cleanString t)) := by
+  have hc10 : catOf 10 = 10 := by decide
+  generalize hbody : (before ++ t :: after).length :: ((before ++ t :: after).flatMap encStr) ++ pad = body
+    at himg hwf hsize
+  have hbl : 1 ≤ body.length := by rw [← hbody]; simp
+  obtain ⟨hcat, hb⟩ := category_found_body m p hcs pre ⟨10, body⟩ _ (holds_split himg hhdr)
+    (by simp only [hc10]; exact hpre) hwf
+    (by have : ¬ body.length / 2 = 0 := by have := hwf.2.1; simp only at this; omega
+        simp only [this, if_false]; omega) hsize
+  simp only [hc10] at hcat
+  unfold findString
+  rw [if_neg (by omega)]
+  simp only [Gen.Eeprom.CAT_STRINGS]
+  rw [bind_fst_ok _ hcat]
+  simp only
+  -- the count byte
+  generalize hs : 128 + (encCats pre).length + 4 = s at hcat hb hsize
+  rw [bind_fst_ok _ (readByte_ok m p (by omega) ⟨s, s + body.length⟩ (by simp only; omega))]
+  have hflat : (before ++ t :: after).flatMap encStr
+      = before.flatMap encStr ++ (encStr t ++ after.flatMap encStr) := by simp
+  have hb2 : Holds p.rd s ((before ++ t :: after).length ::
+      (before.flatMap encStr ++ (encStr t ++ (after.flatMap encStr ++ pad)))) := by
+    rw [← hbody, hflat] at hb; simpa using hb
+  have hcount : p.rd s = (before ++ t :: after).length := by
+    have := hb2.get 0 (by simp); simpa using this
+  simp only [hcount, Nat.add_sub_cancel]
+  rw [if_neg (by simp)]
+  have hb3 : Holds p.rd (s + 1) (before.flatMap encStr ++ (encStr t ++ (after.flatMap encStr ++ pad))) := by
+    have h' : Holds p.rd s ([(before ++ t :: after).length] ++
+        (before.flatMap encStr ++ (encStr t ++ (after.flatMap encStr ++ pad)))) := hb2
+    simpa using h'.append.2
+  have hlen : body.length = 1 + (before.flatMap encStr).length + (t.length + 1)
+      + ((after.flatMap encStr).length + pad.length) := by
+    rw [← hbody, hflat]; simp [encStr]; omega
+  rw [bind_fst_ok _ (skipStrings_enc m p (by omega) before ⟨s + 1, s + body.length⟩ _ hb3 (by simp [encStr])
+    (by simp only [List.length_append, encStr, List.length_cons]; omega) (by simp only; omega))]
+  -- the length byte of the wanted string
+  have hb4 := hb3.append.2
+  rw [bind_fst_ok _ (readByte_ok m p (by omega) _ (by simp only; omega))]
+  have hlb : p.rd (s + 1 + (before.flatMap encStr).length) = t.length := by
+    have := hb4.get 0 (by simp [encStr]); simpa [encStr] using this
+  simp only [hlb]
+  rw [if_neg (by omega)]
+  have hre := readExact_ok m p (by omega) ⟨s + 1 + (before.flatMap encStr).length + 1, s + body.length⟩ t.length
+    (by simp only; omega) (by simp only; omega)
+  rw [bind_fst_ok _ (eofToOverrun_ok hre.1).1]
+  have hb5 : Holds p.rd (s + 1 + (before.flatMap encStr).length + 1) t := by
+    have h' : Holds p.rd (s + 1 + (before.flatMap encStr).length)
+        ([t.length] ++ (t ++ (after.flatMap encStr ++ pad))) := hb4
+    simpa using h'.append.2.append.1
+  unfold Holds at hb5
+  simp only [ret_fst]
+  rw [hb5]
+
+/-- `find_string` with the index one past the table is NOT reported absent (the code tests
+    `search_index > num_strings` after making the index 0-based): with the two strings "A", "B" and a zero pad
+    byte, index 3 yields `Some("")` — the pad byte read as a length. -/
+theorem find_string_one_past_counterexample :
+    let cats : List Cat := [⟨10, [2, 1, 0x41, 1, 0x42, 0]⟩]
+    let p : Prov := ⟨imgRd (encodeSii (List.replicate 128 0) cats) 255, 4⟩
+    (findString .checked p 16 2).1 = .ok (some [0x42]) ∧
+    (findString .checked p 16 3).1 = .ok (some []) ∧
+    (findString .checked p 16 4).1 = .ok none := by
+  decide
 
 /-! ### non-vacuity -/
 
@@ -240,5 +488,53 @@ example : (readSeq .checked ⟨fun a => a, 4⟩ ⟨3, 10⟩ [2, 0, 4, 9, 1]).1
 
 example : (readSeq .wrapping ⟨fun a => 2 * a, 8⟩ ⟨65530, 65535⟩ [3, 3]).1
     = .ok ([[131060, 131062, 131064], [131066, 131068]], ⟨65535, 65535⟩) := by decide
+
+/-! ## T1 obligations: the literal offsets / numbers used by the model and the statements above are the ones
+   regenerated from /repo on this run (a changed layout or constant breaks these) -/
+
+theorem t1_layouts :
+    Gen.Eeprom.layout_SyncManager
+      = (8, [("start_addr", 0, 2), ("length", 2, 2), ("control", 4, 1), ("enable", 6, 1), ("usage_type", 7, 1)]) ∧
+    Gen.Eeprom.layout_Pdo = (8, [("index", 0, 2), ("num_entries", 2, 1), ("sync_manager", 3, 1)]) ∧
+    Gen.Eeprom.layout_PdoEntry = (8, [("data_length_bits", 5, 1)]) ∧
+    Gen.Eeprom.layout_FmmuEx = (3, [("sync_manager", 1, 1)]) ∧
+    Gen.Eeprom.layout_DefaultMailbox
+      = (10, [("subdevice_receive_offset", 0, 2), ("subdevice_receive_size", 2, 2), ("subdevice_send_offset", 4, 2),
+              ("subdevice_send_size", 6, 2), ("supported_protocols", 8, 2)]) ∧
+    Gen.Eeprom.layout_SiiGeneral
+      = (18, [("group_string_idx", 0, 1), ("image_string_idx", 1, 1), ("order_string_idx", 2, 1),
+              ("name_string_idx", 3, 1), ("coe_details", 5, 1), ("foe_enabled", 6, 1), ("eoe_enabled", 7, 1),
+              ("flags", 11, 1), ("ebus_current", 12, 2), ("ports", 14, 2), ("physical_memory_addr", 16, 2)]) ∧
+    Gen.Eeprom.layout_SubDeviceIdentity
+      = (16, [("vendor_id", 0, 4), ("product_id", 4, 4), ("revision", 8, 4), ("serial", 12, 4)]) ∧
+    Gen.Eeprom.bits_Control
+      = [("operation_mode", 0, 2), ("direction", 2, 2), ("ecat_event_enable", 4, 1),
+         ("dls_user_event_enable", 5, 1), ("watchdog_enable", 6, 1)] :=
+  ⟨rfl, rfl, rfl, rfl, rfl, rfl, rfl, rfl⟩
+
+theorem t1_constants :
+    Gen.Eeprom.SII_FIRST_CATEGORY_START = 64 ∧ Gen.Eeprom.CAT_STRINGS = 10 ∧ Gen.Eeprom.CAT_GENERAL = 30 ∧
+    Gen.Eeprom.CAT_FMMU = 40 ∧ Gen.Eeprom.CAT_SYNC_MANAGER = 41 ∧ Gen.Eeprom.CAT_FMMU_EX = 42 ∧
+    Gen.Eeprom.CAT_TX_PDO = 50 ∧ Gen.Eeprom.CAT_RX_PDO = 51 ∧ Gen.Eeprom.CAT_END = 65535 ∧
+    Gen.Eeprom.IDENTITY_WORD_ADDR = 8 ∧ Gen.Eeprom.MAILBOX_WORD_ADDR = 24 ∧ Gen.Eeprom.SIZE_WORD_ADDR = 62 ∧
+    Gen.Eeprom.EMPTY_CATEGORY_LIMIT = 32 ∧ Gen.Eeprom.FMMU_READ_BUF = 16 := by
+  decide
+
+/-- A complete small image: Strings, a vendor category, SyncManager, FMMU, End; every hypothesis of the round
+    trips is satisfied by it and the parsers return the described values. -/
+def demoCats : List Cat :=
+  [⟨10, [2, 2, 0x45, 0x4c, 1, 0xb5]⟩, ⟨0x1234, [9, 9]⟩,
+   ⟨41, encSm ⟨0x1000, 128, 0x26, 0, 1, 1⟩ ++ encSm ⟨0x1080, 128, 0x22, 0, 1, 2⟩⟩, ⟨40, [1, 2, 3, 255]⟩]
+
+def demoProv : Prov := ⟨imgRd (encodeSii (List.replicate 128 7) demoCats) 255, 8⟩
+
+example : (category .checked demoProv 41).1 = .ok (some ⟨148, 164⟩) := by decide
+example : (category .wrapping demoProv 50).1 = .ok none := by decide
+example : (syncManagers .checked demoProv).1
+    = .ok [⟨0x1000, 128, 0x26, 1, 1⟩, ⟨0x1080, 128, 0x22, 1, 2⟩] := by decide
+example : (fmmus .checked demoProv).1 = .ok [1, 2, 3, 0] := by decide
+example : (findString .checked demoProv 64 1).1 = .ok (some [0x45, 0x4c]) := by decide
+example : (findString .checked demoProv 64 2).1 = .ok (some [63]) := by decide
+example : (identity .checked demoProv).1 = .ok (117901063, 117901063, 117901063, 117901063) := by decide
 
 end Ec.C12
